@@ -192,6 +192,29 @@ Record sps := mkSps {
   sps_nr_bytes_before_vui : N; sps_nr_bytes_read : N;
   sps_vui : option vui }.
 
+Record pps := mkPps {
+  pps_id : N; pps_sps_id : N; pps_entropy_coding_mode : bool; pps_bottom_field_pic_order : bool;
+  pps_num_slice_groups_minus1 : N; pps_slice_group_map_type : N;
+  pps_run_length_minus1 : list N; pps_top_left : list N; pps_bottom_right : list N;
+  pps_slice_group_change_direction : bool; pps_slice_group_change_rate_minus1 : N;
+  pps_pic_size_in_map_units_minus1 : N; pps_slice_group_id : list N;
+  pps_num_ref_idx_l0_default_active_minus1 : N; pps_num_ref_idx_l1_default_active_minus1 : N;
+  pps_weighted_pred : bool; pps_weighted_bipred_idc : N;
+  pps_pic_init_qp_minus26 : Z; pps_pic_init_qs_minus26 : Z; pps_chroma_qp_index_offset : Z;
+  pps_deblocking_filter_control_present : bool; pps_constrained_intra_pred : bool;
+  pps_redundant_pic_cnt_present : bool;
+  pps_transform_8x8_mode : bool; pps_pic_scaling_matrix_present : bool;
+  pps_pic_scaling_lists : list (option (list Z));
+  pps_second_chroma_qp_index_offset : Z }.
+
+(* bits.CeilLog2 *)
+Fixpoint ceil_log2_from (fuel : nat) (i n : N) : N :=
+  match fuel with
+  | O => 32
+  | S f => if n <=? 2 ^ i then i else ceil_log2_from f (i + 1) n
+  end.
+Definition ceil_log2 (n : N) : N := ceil_log2_from 32 0 n.
+
 (* ------------------------------------------------------------------ the parsers *)
 Definition loop_bound : N := 65536.
 
@@ -229,6 +252,15 @@ Section Parsers.
     end.
   Definition rep_n {A} (n : N) (body : M A) : M (list A) :=
     if n <=? loop_bound then rep (N.to_nat n) body else out_of_fuel.
+
+  (* the same loop with `if reader.AccError() != nil { break }` at the top of the body *)
+  Fixpoint rep_break {A} (n : nat) (body : M A) : M (list A) :=
+    match n with
+    | O => ret []
+    | S k => e <- get_err ;; if e then ret [] else x <- body ;; t <- rep_break k body ;; ret (x :: t)
+    end.
+  Definition rep_break_n {A} (n : N) (body : M A) : M (list A) :=
+    if n <=? loop_bound then rep_break (N.to_nat n) body else out_of_fuel.
 
   (* ---- avc/sps.go readScalingList (Go int is 64 bit, % truncates) *)
   Fixpoint read_scaling_list (n : nat) (last next : Z) : M (list Z) :=
@@ -420,6 +452,77 @@ Section Parsers.
     if negb (N.land (u8 hdr) 31 =? 7) then fail           (* ErrNotSPS *)
     else parse_sps_data beyond.
 
+  (* ---- ParsePPSNALUnit; spsmap: seq_parameter_set_id -> ChromaFormatIDC of that SPS in spsMap.
+     Repaired text (fix commits, see known_findings/C15.json): map type 2 reads
+     num_slice_groups_minus1 pairs, map type 6 reads pic_size_in_map_units_minus1 and that many ids,
+     the pic scaling lists are read whenever pic_scaling_matrix_present_flag is set. *)
+  Definition parse_pps_slice_groups (nsg : N)
+    : M (N * list N * list N * list N * bool * N * N * list N) :=
+    if 0 <? nsg then
+      mt <- rd_ue ;;
+      if mt =? 0 then
+        rl <- rep_n (nsg + 1) rd_ue ;; ret (mt, rl, [], [], false, 0, 0, [])
+      else if mt =? 2 then
+        prs <- rep_n nsg (tl <- rd_ue ;; br <- rd_ue ;; ret (tl, br)) ;;
+        ret (mt, [], map fst prs, map snd prs, false, 0, 0, [])
+      else if (mt =? 3) || (mt =? 4) || (mt =? 5) then
+        dir <- rd_flag ;; rate <- rd_ue ;; ret (mt, [], [], [], dir, rate, 0, [])
+      else if mt =? 6 then
+        psmu <- rd_ue ;;
+        ids <- rep_break_n (psmu + 1) (rd (ceil_log2 (nsg + 1))) ;;
+        ret (mt, [], [], [], false, 0, psmu, ids)
+      else ret (mt, [], [], [], false, 0, 0, [])
+    else ret (0, [], [], [], false, 0, 0, []).
+
+  Definition parse_pps_tail (spsmap : N -> option N) (spsid : N)
+    : M (bool * bool * list (option (list Z)) * Z) :=
+    t8 <- rd_flag ;;
+    spf <- rd_flag ;;
+    lists <- (if spf then
+                match spsmap spsid with
+                | None => fail                         (* "sps ID %d not found in map" *)
+                | Some chroma =>
+                    let nr := if t8 then (if negb (chroma =? 3) then 8%nat else 12%nat) else 6%nat in
+                    read_scaling_lists nr 0
+                end
+              else ret []) ;;
+    second <- rd_se ;;
+    ret (t8, spf, lists, second).
+
+  Definition parse_pps (spsmap : N -> option N) : M pps :=
+    hdr <- rd 8 ;;
+    if negb (N.land (u8 hdr) 31 =? 8) then fail else     (* ErrNotPPS *)
+    id <- rd_ue ;;
+    spsid <- rd_ue ;;
+    ecm <- rd_flag ;;
+    bfp <- rd_flag ;;
+    nsg <- rd_ue ;;
+    if 7 <? nsg then fail else                           (* guard d2db25a *)
+    sg <- parse_pps_slice_groups nsg ;;
+    let '(mt, rl, tl, br, dir, rate, psmu, ids) := sg in
+    l0 <- rd_ue ;;
+    l1 <- rd_ue ;;
+    wp <- rd_flag ;;
+    wb <- rd 2 ;;
+    qp <- rd_se ;;
+    qs <- rd_se ;;
+    cqp <- rd_se ;;
+    dfc <- rd_flag ;;
+    cip <- rd_flag ;;
+    rpc <- rd_flag ;;
+    more <- rd_more ;;
+    tail <- (if more then parse_pps_tail spsmap (u32 spsid) else ret (false, false, [], 0%Z)) ;;
+    let '(t8, spf, lists, second) := tail in
+    tr <- rd_trailing ;;
+    if tr then fail else
+    e <- get_err ;;
+    if e then fail else
+    x <- rd 1 ;;
+    e2 <- get_err ;;
+    if negb e2 then fail else                            (* "not at end after reading rbsp_trailing_bits" *)
+    ret (mkPps (u32 id) (u32 spsid) ecm bfp nsg mt rl tl br dir rate psmu ids l0 l1 wp wb qp qs cqp
+               dfc cip rpc t8 spf lists second).
+
 End Parsers.
 
 Definition run {St A} (m : St -> res (A * St)) (s : St) : res A :=
@@ -427,6 +530,9 @@ Definition run {St A} (m : St -> res (A * St)) (s : St) : res A :=
 
 Definition parse_sps_er (beyond : bool) (nalu : list N) : res sps := run (parse_sps ER beyond) (rinit nalu).
 Definition parse_sps_br (beyond : bool) (nalu : list N) : res sps := run (parse_sps BR beyond) (binit nalu).
+
+Definition parse_pps_er (spsmap : N -> option N) (nalu : list N) : res pps := run (parse_pps ER spsmap) (rinit nalu).
+Definition parse_pps_br (spsmap : N -> option N) (nalu : list N) : res pps := run (parse_pps BR spsmap) (binit nalu).
 
 (* ------------------------------------------------------------------ flattening for the line protocol *)
 Definition zb (b : bool) : Z := if b then 1%Z else 0%Z.
@@ -477,3 +583,21 @@ Definition flat_sps (s : sps) : list Z :=
       zn (sps_crop_left s); zn (sps_crop_right s); zn (sps_crop_top s); zn (sps_crop_bottom s);
       zn (sps_width s); zn (sps_height s); zn (sps_nr_bytes_before_vui s); zn (sps_nr_bytes_read s)]
   ++ flat_opt flat_vui (sps_vui s).
+
+Definition flat_nlist (l : list N) : list Z := flat_list (fun x => [zn x]) l.
+
+Definition flat_pps (p : pps) : list Z :=
+  [zn (pps_id p); zn (pps_sps_id p); zb (pps_entropy_coding_mode p); zb (pps_bottom_field_pic_order p);
+   zn (pps_num_slice_groups_minus1 p); zn (pps_slice_group_map_type p)]
+  ++ flat_nlist (pps_run_length_minus1 p) ++ flat_nlist (pps_top_left p) ++ flat_nlist (pps_bottom_right p)
+  ++ [zb (pps_slice_group_change_direction p); zn (pps_slice_group_change_rate_minus1 p);
+      zn (pps_pic_size_in_map_units_minus1 p)]
+  ++ flat_nlist (pps_slice_group_id p)
+  ++ [zn (pps_num_ref_idx_l0_default_active_minus1 p); zn (pps_num_ref_idx_l1_default_active_minus1 p);
+      zb (pps_weighted_pred p); zn (pps_weighted_bipred_idc p);
+      pps_pic_init_qp_minus26 p; pps_pic_init_qs_minus26 p; pps_chroma_qp_index_offset p;
+      zb (pps_deblocking_filter_control_present p); zb (pps_constrained_intra_pred p);
+      zb (pps_redundant_pic_cnt_present p); zb (pps_transform_8x8_mode p);
+      zb (pps_pic_scaling_matrix_present p)]
+  ++ flat_scaling (pps_pic_scaling_lists p)
+  ++ [pps_second_chroma_qp_index_offset p].
